@@ -119,4 +119,22 @@ CLAIMED = {
         note="Not decided: the numeric bound over histories. Known finding (open): the guard's counter is only advanced at commit, so un-committed puts are not counted. "
              "Untriaged candidate (not armed): enable_vec()/manifest.dimension are stored before the capacity check.",
         design_ref="DESIGN.md §4 C24"),
+    "C42": dict(
+        technique="field-store whitelist inside vacuum (+closures), data-flow identity of read/written payload by frame id, must-pass-through",
+        text="Partial: inside vacuum only Frame.payload_offset/payload_length are stored; the bytes written for a frame are those read for the frame with the same id, "
+             "only on the Active edge, at the running cursor; commit succeeds before any payload moves and Ok is reached only through rebuild_indexes -> sync_all.",
+        note="Not decided: byte equality of content, equality of search/timeline results, crash-atomicity of the in-place rewrite.",
+        design_ref="DESIGN.md §4 C42"),
+    "C13": dict(
+        technique="edge-cut reachability of VecIndex::search past the dimension comparison (sibling entry points) + shape of the exact arm (score-all, ascending comparator, truncate after sort)",
+        text="Partial: both vector entry points reach VecIndex::search only past query.len() == index dimension (mismatch -> VecDimensionMismatch); the exact arm scores every "
+             "document, sorts ascending on distance and truncates afterwards. Fails closed if the ordering mechanism is replaced by one the rule does not recognise.",
+        note="Not decided: floating-point semantics (NaN ordering), approximate representations, identity of results after reopen.",
+        design_ref="DESIGN.md §4 C13"),
+    "C14": dict(
+        technique="enum-arm payload-use analysis vs call-graph reachability of each representation's builder (per configuration) + data-flow wiring of build_vec_artifact / update_frame / apply_records",
+        text="Partial: a VecIndex representation whose entries/embedding_for/remove arms ignore the payload must have no builder reachable from the Memvid API in the analysed "
+             "configuration; build_vec_artifact = active(existing entries) + new docs and its result is installed; updates carry the old embedding; apply_records records the embedding under the pushed id.",
+        note="Not decided: membership over histories (values). Thorough tier also analyses the `wide` feature configuration, where the Hnsw representation is reachable (known finding, config=wide).",
+        design_ref="DESIGN.md §4 C14"),
 }
